@@ -403,6 +403,14 @@ def find_closure(src, lo, hi, name):
                         p += 1
                     params = src.span_text(k + 1, p - 1) if p > k + 1 else ''
                     b = p + 1
+                    if src.is_p(b, '-') and src.is_p(b + 1, '>'):
+                        # explicit return type: `|..| -> T { .. }`; the body is the block
+                        q = b + 2
+                        while not src.is_p(q, '{'):
+                            if src.toks[q].kind == 'punct' and src.toks[q].text in '([':
+                                q = src.match[q]
+                            q += 1
+                        b = q
                     if src.is_p(b, '{'):
                         e = src.match[b]
                         endt = e + 1 if src.is_p(e + 1, ';') else e
